@@ -28,6 +28,11 @@ ErrClasses(s) ==
     [] OTHER -> {}
 
 Reasons(s, o, want) ==
+  \* cfg: the client was told to advertise one more application, which its own dictionary lacks.  It may
+  \* refuse to dial (the code does for acct / auth applications); if it dials, the CER carries that
+  \* application too (it is part of `want`) and everything else holds as usual.
+  IF s.cfg # "" /\ ~o.dial_ok /\ o.ncer = 0 THEN <<>>
+  ELSE
      (IF o.ncer > s.budget + 1 \/ o.ncer < 1 THEN <<"too-many-cer">> ELSE <<>>)
   \o (IF Answers(s) /\ s.kind # "eof" /\ o.ncer # s.at THEN <<"cer-count">> ELSE <<>>)
   \o (IF ~Answers(s) /\ s.kind # "eof" /\ o.ncer # s.budget + 1 THEN <<"cer-count">> ELSE <<>>)
